@@ -299,6 +299,57 @@ def run_behind_unacked(res, cell):
         w.dispose()
 
 
+def run_behind_release(res, dur, nr):
+    """A second slow CON request arrives while the node's separate response to the first is still unacknowledged: it is acknowledged
+    (empty ACK) on time, its own separate response waits for the open exchange - and goes out, once, with a fresh message ID and the
+    request's token, as soon as the peer acknowledges the first one."""
+    w, node, req, tok, reqmid, calls = build()
+    try:
+        for n in w.nodes.values():
+            if hasattr(n, "autoack"):
+                n.autoack = False
+        t0 = w.loop.time()
+        data, mid0, token0 = incoming((rc.CON, 1, False, "peer", "uni", "slow", None), tok, 0)
+        w.inject(PEER, NODE, data, local_ip=LOCALS["uni"])
+        w.loop.advance_to(t0 + 0.6)
+        sep = [rc.decode(d.data, check_formats=False) for d in w.sent if d.src == NODE and d.data[0] & 0x30 == 0 and d.data[1] >= 64]
+        w.pool.clear()
+        cell = (rc.CON, 1, False, "peer", "uni", dur, nr)
+        data, mid, token = incoming(cell, tok, 1)
+        w.inject(PEER, NODE, data, local_ip=LOCALS["uni"])
+        w.loop.advance_to(t0 + 0.6 + 0.8)
+        case = {"behind_release": [dur, nr]}
+        res.evaluations += 1
+        res.traces += 1
+        mine = [rc.decode(d.data, check_formats=False) for d in w.sent if d.src == NODE and d.dst == PEER]
+        early = [m for m in mine if m[0] == rc.CON and m[3] == token]
+        acks = [m for m in mine if m[0] == rc.ACK and m[2] == mid]
+        n_before = len(w.sent)
+        if len(sep) == 1:
+            w.inject(PEER, NODE, rc.encode((rc.ACK, 0, sep[0][2], b"", [], b"")), local_ip=LOCALS["uni"])
+        w.loop.advance_to(t0 + 0.6 + 0.8 + 0.5)
+        late = [rc.decode(d.data, check_formats=False) for d in w.sent[n_before:] if d.src == NODE and d.dst == PEER]
+        late_con = [m for m in late if m[0] == rc.CON and m[3] == token and m[1] >= 64]
+        sup = suppressed(nr, 69)
+        want_late = 0 if sup else 1
+        used = {m[2] for m in mine if m[0] in (rc.CON, rc.NON)}
+        ok = len(sep) == 1 and len(acks) == 1 and acks[0][1] == 0 and not early and len({m[2] for m in late_con}) == want_late \
+            and all(m[2] not in used and m[2] != mid for m in late_con)
+        if not ok:
+            res.violate(Violation("reaction-behind-open-exchange", {"empty ACK": 1, "separate response before the ACK of the first": 0, "after it": want_late},
+                                  {"acks": [rc.describe(m) for m in acks], "early": [rc.describe(m) for m in early], "late": [rc.describe(m) for m in late]},
+                                  "messagemanager.py:send_message / tokenmanager.py:process_request", case, trace=w.trace[-20:],
+                                  key="release/%s/%s" % (dur, "early" if early else "missing" if len(late_con) < want_late else "other")))
+        for msg, e in w.loop_exceptions():
+            res.violate(Violation("loop-exception", "none", core.exc_desc(e) if e else msg, core.site_of(e) if e else "loop", case, key="loop"))
+        res.states.add(core.digest(("release", dur, nr, len(late_con))))
+        res.transitions += 3
+        res.outcomes.add(core.digest(("release", len(late_con))))
+        res.signatures.add(core.digest(("release", dur, nr)))
+    finally:
+        w.dispose()
+
+
 def run_mid_crossing(res, cell, reaction):
     """Message IDs of the two directions are separate spaces: the node's separate CON response went out under its own ID M and
     was acknowledged (or reset) by the peer under M; a message of the peer that happens to carry M as *its* ID is a new message
@@ -549,6 +600,9 @@ def job(arg):
                 continue
             for reaction in ("ack", "rst"):
                 run_mid_crossing(res, c, reaction)
+        for dur in ("slow", "D+e"):
+            for nr in (None, 2, 8, 26):
+                run_behind_release(res, dur, nr)
         res.sample({"behind_unacked_separate_response": list(items[0])})
     return res
 
@@ -620,7 +674,9 @@ def replay(case, scenario, seed):
     if "same_token" in case:
         run_same_token(res, *case["same_token"])
         return [v for v, n in res.violations.values()]
-    if "mid_crossing" in case:
+    if "behind_release" in case:
+        run_behind_release(res, *case["behind_release"])
+    elif "mid_crossing" in case:
         run_mid_crossing(res, tuple(case["mid_crossing"]), case["reaction"])
     elif "outgoing" in case:
         outgoing(res)
